@@ -643,7 +643,9 @@ ddiff_prnt(struct dt_dtdur_s dur, const char *fmt, durfmt_t f, bool only_d_p)
 	size_t res = __strfdtdur(buf, sizeof(buf), fmt, dur, f, only_d_p);
 
 	if (res > 0 && buf[res - 1] != '\n') {
-		/* auto-newline */
+		/* auto-newline, at the expense of the last character
+		 * when the buffer is full */
+		res -= res >= sizeof(buf);
 		buf[res++] = '\n';
 	}
 	if (res > 0) {
